@@ -121,6 +121,25 @@ class FnPtr:
     def __init__(s, name): s.name = name
 
 
+class Sl:
+    """lazy byte slice [lo, lo+n) of a symbolic scalar `base` of `bb` bytes; lives only inside Pack parts.
+    Kept lazy because z3's rewriter pushes extracts through add/mul, after which re-assembled halves no longer fold."""
+    __slots__ = ('base', 'bb', 'lo')
+
+    def __init__(s, base, bb, lo): s.base = base; s.bb = bb; s.lo = lo
+    def __repr__(s): return f'Sl({s.base},{s.lo})'
+
+    def key(s):
+        b = s.base
+        return b.get_id() if hasattr(b, 'get_id') else id(b)
+
+    def bits(s, n):
+        b = s.base.bits() if isinstance(s.base, FV) else s.base
+        if isinstance(b, int): return (b >> (8 * s.lo)) & ((1 << (8 * n)) - 1)
+        if z3.is_bool(b): b = bv(b, 8 * s.bb)
+        return simp(z3.Extract(8 * (s.lo + n) - 1, 8 * s.lo, b))
+
+
 class Pack:
     """integer made of parts [(value, nbytes)] low -> high"""
     __slots__ = ('parts',)
@@ -133,6 +152,7 @@ class Pack:
 def part_bits(v, nbytes):
     """bit-vector (python int or z3) of a cell value, or None if not expressible"""
     if isinstance(v, int): return v
+    if isinstance(v, Sl): return v.bits(nbytes)
     if isinstance(v, FV):
         if v.r is not None: return None
         return v.bits()
@@ -154,4 +174,5 @@ def pack_bits(p):
         r = 0; sh = 0
         for b, n in terms: r |= mask(b, 8 * n) << sh; sh += 8 * n
         return r
+    if len(terms) == 1: return terms[0][0]
     return simp(z3.Concat(*[bv(b, 8 * n) for b, n in reversed(terms)]))
